@@ -82,18 +82,25 @@ Section Cyclic.
   Qed.
 End Cyclic.
 
-(** the histogram sampler never runs out of fuel on a 2^n-cell register *)
+(** the histogram sampler never runs out of fuel on a 2^n-cell register -- for the cells the model
+    rounds, and for any other 2^n rounded cells (a parallel reduction may round the sum of draws differently) *)
 Definition C16_terminates_stmt : Prop :=
-  forall (n : nat) (p nv : list R) (count : N),
-    length p = Nat.pow 2 n -> length p = length nv ->
-    exists cells, sample_cells Rops p nv count (N.ones (N.of_nat n)) = Some cells.
+  forall (n : nat) (p : list R) (count : N),
+    length p = Nat.pow 2 n ->
+    (forall nv, length p = length nv ->
+       exists cells, sample_cells Rops p nv count (N.ones (N.of_nat n)) = Some cells) /\
+    (forall raw, length raw = Nat.pow 2 n ->
+       exists cells, correct_cells Rops p raw count (N.ones (N.of_nat n)) = Some cells).
 
 Lemma C16_terminates_proof : C16_terminates_stmt.
 Proof.
-  intros n p nv count Hp Hl. unfold sample_cells.
-  set (raw := raw_cells Rops p nv count).
-  assert (Hrl : length raw = Nat.pow 2 n) by (unfold raw; rewrite raw_cells_length by exact Hl; exact Hp).
-  destruct (N.ltb (sumN raw) count); [eexists; reflexivity|].
-  destruct (N.ltb_spec count (sumN raw)) as [Lt|Ge]; [|eexists; reflexivity].
-  apply (surplus_terminates n _ raw (sumN raw - count) 0 0%nat); try assumption; try lia.
+  intros n p count Hp.
+  assert (G : forall raw, length raw = Nat.pow 2 n ->
+                exists cells, correct_cells Rops p raw count (N.ones (N.of_nat n)) = Some cells).
+  { intros raw Hrl. unfold correct_cells.
+    destruct (N.ltb (sumN raw) count); [eexists; reflexivity|].
+    destruct (N.ltb_spec count (sumN raw)) as [Lt|Ge]; [|eexists; reflexivity].
+    apply (surplus_terminates n _ raw (sumN raw - count) 0 0%nat); try assumption; try lia. }
+  split; [|exact G].
+  intros nv Hl. unfold sample_cells. apply G. rewrite raw_cells_length by exact Hl. exact Hp.
 Qed.
